@@ -104,8 +104,16 @@ func analyse(pr *rules.Property, tier, config string, lc eng.LoadConfig) (c *eng
 		return nil, err
 	}
 	c = eng.NewCtx(p, pr.ID, tier, config)
-	for _, r := range pr.Rules {
-		r(c)
+	rules.UseProg(p)
+	for i, r := range pr.Rules {
+		func() {
+			defer func() {
+				if rec := recover(); rec != nil {
+					c.Undec("analyser", fmt.Sprintf("rule #%d of %s", i, pr.ID), 0, fmt.Sprintf("the analyser panicked: %v", rec))
+				}
+			}()
+			r(c)
+		}()
 	}
 	c.Finish(true)
 	return c, nil
